@@ -9,7 +9,7 @@ import copy
 HOSTS = ['a.test', 'b.test', 'c.test']
 IPS = {'a.test': '10.0.0.1', 'b.test': '10.0.0.2', 'c.test': '10.0.0.3', 'f.test': '10.0.0.3'}
 
-DEFAULT_OPTS = dict(recursive=1, level=0, pagereq=0, spanhosts=0, strong=1, tries=2, maxredir=3, robots=0, auth=0, sitemaps=0, ua='',
+DEFAULT_OPTS = dict(recursive=1, level=0, pagereq=0, spanhosts=0, strong=1, tries=2, maxredir=3, robots=0, auth=0, sitemaps=0, ua='', cont=0,
                     tags='', noparent=0, retryconn=0, retrydns=0)
 
 
@@ -115,7 +115,8 @@ def argv(scn, db, directory):
     for s in scn['start']:
         u = by[s]
         a.append('http://%s%s' % (origin_label(u), u['path']))
-    a += ['--html-parser', 'html5lib', '--delete-after', '-q', '-P', directory]
+    # ('cont': --continue, documents kept on disk: a resumed run finds the files of the killed one)
+    a += ['--html-parser', 'html5lib'] + (['--continue'] if o.get('cont') else ['--delete-after']) + ['-q', '-P', directory]
     a += ['--database-uri', 'sqlite:///' + db] if scn.get('dburi') else ['--database', db]
     a += [
           '--waitretry', '0', '--tries', str(o['tries']), '--max-redirect', str(o['maxredir']),
@@ -328,6 +329,9 @@ def c03_catalogue(quick):
     # (the two extra leaves keep the queue busy while the long path is walked)
     lv = [U(1, links=[2, 3, 7, 8]), U(2, links=[4]), U(3, links=[5]), U(5, links=[4]), U(4, links=[6]), U(6), U(7), U(8)]
     out.append(scenario('crash-level-two-paths', lv, dict(level=3), N=1))
+    # --continue: the resumed run finds the documents the killed run left on disk and asks for the rest of them; the
+    # site answers such Range requests with 200 and the whole document (RFC 7233 3.1: a server MAY ignore Range)
+    out.append(scenario('crash-continue-N1', small, dict(cont=1), N=1))
     # a recursive FTP crawl: the entries of a directory listing are discovered URLs like the links of a page
     out.append(ftp_scenario('crash-ftp-tree-N1'))
     sm = sitemap_sites()
